@@ -222,6 +222,64 @@ def writer_leaves(body):
     return leaves
 
 
+def writer_forms_by_simulation(body):
+    """The writer's forms read off what it returns on every path (bufsim): the interval of lengths that takes the path and
+    the bytes returned there - [len as u8] | [marker, len as u8] | [marker, <w bytes of len, order>].  -> forms like
+    writer_forms(), or None when a path could not be followed."""
+    import bufsim
+    import pathsym
+    L = bufsim.L
+    key = ("param", 1)
+    rets = [i for i in sorted(body.reachable(0)) if body.blocks[i]["term"]["t"] == "return"]
+    forms = []
+    for r in rets:
+        for path in pathsym.simple_paths(body, 0, r, limit=512):
+            sim = bufsim.Sim(body)
+            sim.env[1] = ("int", L(0, {key: 1}))
+            try:
+                sim.run(path)
+            except bufsim.Infeasible:
+                continue
+            except Exception:
+                return None
+            out = sim.env.get(0, bufsim.UNK)
+            if out[0] != "buf" or sim.heap[out[1]]["unknown"]:
+                return None
+            lo, hi = 0, INF
+            for (c, truth) in sim.conds:
+                _, op, a_, c_ = c
+                d = a_.add(c_, -1)
+                if set(d.t) != {key} or abs(d.t[key]) != 1:
+                    return None
+                k = -d.c * d.t[key]          # key op' k
+                if d.t[key] == -1:
+                    op = {"Lt": "Gt", "Le": "Ge", "Gt": "Lt", "Ge": "Le"}.get(op, op)
+                lo, hi = refine((lo, hi), op, k, True, truth)
+            if lo > hi:
+                continue
+            segs = sim.heap[out[1]]["segs"]
+
+            def is_len_byte(sg):
+                return sg[0][0] == "val" and sg[0][1] == L(0, {key: 1})
+            if len(segs) == 1 and is_len_byte(segs[0]):
+                forms.append((lo, hi, None, 0, None))
+            elif len(segs) == 2 and segs[0][0][0] == "const" and is_len_byte(segs[1]):
+                forms.append((lo, hi, segs[0][0][1], 1, None))
+            elif len(segs) == 2 and segs[0][0][0] == "const" and segs[1][0][0] == "enc" and segs[1][0][3] == L(0, {key: 1}):
+                forms.append((lo, hi, segs[0][0][1], segs[1][0][2], segs[1][0][1]))
+            else:
+                return None
+    # merge adjacent intervals of the same form
+    forms.sort(key=_nk)
+    merged = []
+    for f in forms:
+        if merged and merged[-1][2:] == f[2:] and merged[-1][1] + 1 == f[0]:
+            merged[-1] = (merged[-1][0], f[1]) + f[2:]
+        else:
+            merged.append(f)
+    return merged
+
+
 def reader_leaves(body, crates):
     """[(first byte lo, hi, kind, extra_bytes, order, rest_offset)] kind in direct|extended|err"""
     pr = make_prover(body, crates)
@@ -507,6 +565,14 @@ def run(ctx, chk):
         nk = _nk
         w_ok = writer_forms(wl)
         want = sorted(spec, key=nk)
+        if w_ok != want:
+            # the leaf table reads the writer off its array literals; a writer that builds its bytes otherwise
+            # (push / extend / early return) is read off what it returns on every path
+            sim_forms = writer_forms_by_simulation(d["serialize"])
+            if sim_forms is not None:
+                sim_forms = [(lo_, min(hi_, 65535), m_, e_, o_) for lo_, hi_, m_, e_, o_ in sim_forms if lo_ <= 65535]
+                if sim_forms == want:
+                    w_ok = sim_forms
         chk.require(w_ok == want, "C16-b/writer-switch-points", short,
                     "writer forms are %s, specification says %s" % (fmt_w(w_ok), fmt_w(want)), fmt_w(want), d["serialize"].sp())
         # writer covers 0..65535 without gaps/overlaps
